@@ -129,8 +129,12 @@ def gen(args) -> list:
         elif c < 0.65:
             off = rnd.choice([0, 64800, -64800, 64740, -64740, 3600, -19800, rnd.randint(-1080, 1080) * 60, rnd.randint(-64800, 64800)])
             x = dt.datetime.combine(rdate(), rtime())
-            if rnd.random() < 0.15:
+            cx = rnd.random()
+            if cx < 0.15:
                 x = rnd.choice([dt.datetime.min, dt.datetime.max])
+            elif cx < 0.3:
+                # within a day of either end: the UTC instant may fall outside year 1..9999 while the local fields do not
+                x = rnd.choice([dt.datetime.min + dt.timedelta(seconds=rnd.randint(0, 90000)), dt.datetime.max - dt.timedelta(seconds=rnd.randint(0, 90000))])
             aw = x.replace(tzinfo=dt.timezone(dt.timedelta(seconds=off)))
             ev = {"op": "aware_rt", "x": _xfields(x), "off": off}
             try:
@@ -146,6 +150,19 @@ def gen(args) -> list:
             except Exception as e:  # noqa: BLE001
                 ev["exc"] = type(e).__name__
             evs.append(ev)
+            # the OffsetDateTime route on its own: it keeps the local fields and the offset, so it converts every aware datetime,
+            # also those whose UTC instant lies beyond the Instant range (within 18 h of datetime.min/max)
+            ev2 = {"op": "aware_odt", "x": _xfields(x), "off": off}
+            try:
+                odt = OffsetDateTime.from_aware_datetime(aw)
+                l2 = odt.local_date_time
+                ev2["loc"] = [l2.date._days_since_epoch, l2.nanosecond_of_day // 10**9, l2.nanosecond_of_day % 10**9]
+                ev2["odt_off"], ev2["cal"] = odt.offset.seconds, odt.calendar.id
+                back = odt.to_aware_datetime()
+                ev2["back_x"], ev2["back_off"] = _xfields(back.replace(tzinfo=None)), int(back.utcoffset().total_seconds())
+            except Exception as e:  # noqa: BLE001
+                ev2["exc"] = type(e).__name__
+            evs.append(ev2)
         elif c < 0.75:
             cal = rnd.choice(cals)
             off = rnd.choice([0, 64800, -64800, 3600, rnd.randint(-64800, 64800)])
